@@ -5,11 +5,15 @@ go 1.23
 toolchain go1.23.5
 
 require (
+	github.com/apparentlymart/go-textseg/v15 v15.0.0
 	github.com/zclconf/go-cty v0.0.0
 	golang.org/x/text v0.11.0
 	pgregory.net/rapid v1.3.0
 )
 
-require github.com/apparentlymart/go-textseg/v15 v15.0.0 // indirect
+require (
+	github.com/vmihailenco/msgpack/v5 v5.3.5 // indirect
+	github.com/vmihailenco/tagparser/v2 v2.0.0 // indirect
+)
 
 replace github.com/zclconf/go-cty => /repo
